@@ -181,7 +181,7 @@ PLAN = {
              "`window_assigned` of the contract proved in pdi_config; ESC hardware semantics assumed",
     ),
     "C09": dict(
-        verus=["init_addr", "state_wait"], kani=[], assumptions=['the devices are not modelled: register writes and reads are observed through uninterpreted predicates', "SubDevice::new's front part (wait for INIT, EEPROM ownership, identity, name) is cut off the fragment"], level="proof",
+        verus=["init_addr", "state_wait", "eeprom_device"], kani=["eeprom_alias"], assumptions=['the devices are not modelled: register writes and reads are observed through uninterpreted predicates', "SubDevice::new's front part (wait for INIT, EEPROM ownership, identity, name) is cut off the fragment"], level="proof",
         claim="the two per-position loops of MainDevice::init, verbatim fragments (Verus, any n): Ok => the device at EVERY ring position i < n was sent "
               "APWR(auto-increment address 0-i, register 0x0010) <- 0x1000+i, the addresses are pairwise distinct; then exactly n SubDevice::new(i, 0x1000+i) "
               "in ring order are stored; n > MAX_SUBDEVICES is Err(Capacity) - never a panic or a silent truncation; Command::apwr negates the position; ORDER: every "
@@ -216,7 +216,7 @@ PLAN = {
         note="network (MainDevice::single_pdu) abstracted as an arbitrary datagram; callers of the wrapped methods not yet under contract",
     ),
     "C12": dict(
-        verus=["eeprom_range", "subdevice_eeprom", "eeprom_items"], kani=[], assumptions=['EEPROM provider contract: read_chunk(w) returns mem[2w .. 2w+k), k in {4, 8}, and does not change the memory', 'derive-generated decoders are uninterpreted functions of the bytes (their layouts: C19)'], level="proof",
+        verus=["eeprom_range", "subdevice_eeprom", "eeprom_items", "eeprom_device"], kani=["eeprom_alias"], assumptions=['EEPROM provider contract: read_chunk(w) returns mem[2w .. 2w+k), k in {4, 8}, and does not change the memory', 'derive-generated decoders are uninterpreted functions of the bytes (their layouts: C19)'], level="proof",
         claim="EepromRange::{new,skip_ahead_bytes,read_byte,read} proved against the provider's ghost memory for every position, window, buffer length and chunk size "
               "(Verus, unbounded loop invariant): read returns exactly mem[pos..pos+n), n = min(len, window left), never beyond the window; the dependency's read_exact on top of it; "
               "SubDeviceEeprom::start_at (window = length rounded up to a word), size (from word 0x3e), category (walk with termination measure); find_string's body from the count byte "
